@@ -314,6 +314,77 @@ def _is_zero_under(du: DefUse, u: Unit, nid: int, t1: ast.AST, cond: Optional[as
 
 
 # --------------------------------------------------------------------- L3
+# ------------------------------------------------------------ memo idiom
+def _memo_attrs(u: Unit) -> Set[str]:
+    """Dict attributes used as a hand-written memo in u: stored by subscript and looked up."""
+    stored = {dotted(t.value) for st in walk_local(u.node) if isinstance(st, ast.Assign)
+              for t in st.targets if isinstance(t, ast.Subscript) and dotted(t.value)
+              and dotted(t.value).startswith("self.")}
+    return {a for a in stored if a}
+
+
+def _memo_lookup_names(u: Unit, memo: Set[str]) -> Set[str]:
+    """Local names bound to a look-up in a memo (`hit = self._m.get(key)`, `hit = self._m[key]`)."""
+    out = set()
+    for st in walk_local(u.node):
+        if isinstance(st, ast.Assign) and len(st.targets) == 1 and isinstance(st.targets[0], ast.Name):
+            v = st.value
+            if isinstance(v, ast.Call) and isinstance(v.func, ast.Attribute) and v.func.attr == "get" \
+                    and dotted(v.func.value) in memo:
+                out.add(st.targets[0].id)
+            if isinstance(v, ast.Subscript) and dotted(v.value) in memo:
+                out.add(st.targets[0].id)
+    return out
+
+
+def _is_memo_test(t: ast.AST, memo: Set[str], names: Set[str] = frozenset()) -> bool:
+    if isinstance(t, ast.UnaryOp) and isinstance(t.op, ast.Not):
+        return _is_memo_test(t.operand, memo, names)
+    if isinstance(t, ast.Compare) and len(t.ops) == 1 and isinstance(t.ops[0], (ast.In, ast.NotIn)):
+        return dotted(t.comparators[0]) in memo
+    if isinstance(t, ast.Compare) and len(t.ops) == 1 and isinstance(t.ops[0], (ast.Is, ast.IsNot)):
+        # hit = self._memo.get(key); if hit is not None
+        return isinstance(t.left, ast.Name) and t.left.id in names
+    return False
+
+
+def _memo_hit_return(u: Unit, r: ast.Return, memo: Set[str]) -> bool:
+    """`return self._memo[key]` (or a name bound to a look-up) guarded by a memo test."""
+    if r.value is None or not memo:
+        return False
+    names = _memo_lookup_names(u, memo)
+    ctx = branch_context(u.node, r)
+    if not any(_is_memo_test(t, memo, names) for (t, br) in ctx):
+        return False
+    v = r.value
+    if isinstance(v, ast.Subscript) and dotted(v.value) in memo:
+        return True
+    return isinstance(v, ast.Name) and v.id in names
+
+
+def _result_exprs(u: Unit) -> List[ast.AST]:
+    """Expressions whose value the function hands back on a miss: return values, with
+    `return self._memo[key]` replaced by what was stored under that memo."""
+    memo = _memo_attrs(u)
+    out = []
+    for r in walk_local(u.node):
+        if not isinstance(r, ast.Return) or r.value is None:
+            continue
+        if _memo_hit_return(u, r, memo):
+            continue
+        v = r.value
+        if isinstance(v, ast.Subscript) and dotted(v.value) in memo:
+            for st in walk_local(u.node):
+                if isinstance(st, ast.Assign) and any(
+                        isinstance(t, ast.Subscript) and dotted(t.value) == dotted(v.value)
+                        for t in st.targets):
+                    out.append(st.value)
+            continue
+        out.append(v)
+    return out
+
+
+
 def l3(prog: Program, chk: Check) -> None:
     chk.rule("L3", "with matsubara true every path to a return passes `<result> = <result>.real`",
              floor=3)
@@ -325,7 +396,14 @@ def l3(prog: Program, chk: Check) -> None:
         real_nodes = {n.id for n in g.nodes if n.kind == "stmt" and isinstance(n.ast, ast.Assign)
                       and isinstance(n.ast.value, ast.Attribute) and n.ast.value.attr == "real"
                       and norm(n.ast.value.value) == norm(n.ast.targets[0])}
-        rets = {n.id for n in g.nodes if n.kind == "stmt" and isinstance(n.ast, ast.Return)}
+        memo = _memo_attrs(u)
+        rets = {n.id for n in g.nodes if n.kind == "stmt" and isinstance(n.ast, ast.Return)
+                and not _memo_hit_return(u, n.ast, memo)}
+        # what is stored in a memo is handed back later: same obligation as a return
+        # (that the entry is keyed by the matsubara flag is rule L6 / C20 A7)
+        rets |= {n.id for n in g.nodes if n.kind == "stmt" and isinstance(n.ast, ast.Assign)
+                 and any(isinstance(t, ast.Subscript) and dotted(t.value) in memo
+                         for t in n.ast.targets)}
 
         def lookup(nid, e):
             if isinstance(e, ast.Name) and e.id == "matsubara":
@@ -366,7 +444,8 @@ def l4(prog: Program, chk: Check) -> None:
         u = prog.unit(q)
         tests = []
         for x in ast.walk(u.node):
-            if isinstance(x, (ast.If, ast.IfExp)):
+            if isinstance(x, (ast.If, ast.IfExp)) and not _is_memo_test(
+                    x.test, _memo_attrs(u), _memo_lookup_names(u, _memo_attrs(u))):
                 tests.append(norm(x.test))
         sigs[q] = tests
         # hard special case
@@ -610,10 +689,14 @@ def l5(prog: Program, chk: Check) -> None:
                 "thermal beyond the overflow guard)")
         return
     # sign of the returned value
-    neg = any(isinstance(r.value, ast.UnaryOp) and isinstance(r.value.op, ast.USub)
-              for r in walk_local(eu.node) if isinstance(r, ast.Return) and r.value is not None)
-    cneg = any(isinstance(r.value, ast.UnaryOp) and isinstance(r.value.op, ast.USub)
-               for r in walk_local(cu.node) if isinstance(r, ast.Return) and r.value is not None)
+    def _negated(u):
+        signs = {isinstance(v, ast.UnaryOp) and isinstance(v.op, ast.USub)
+                 for v in _result_exprs(u)}
+        if len(signs) != 1:
+            raise AnalysisError(f"L5: {u.qual} hands back its integral with mixed or no sign "
+                                f"({[norm(v) for v in _result_exprs(u)]})")
+        return signs.pop()
+    neg, cneg = _negated(eu), _negated(cu)
     for label in sorted(ci):
         c, e = _tau_expr(ci[label]), _tau_expr(ei[label])
         if c is None or e is None:
@@ -642,6 +725,27 @@ def l5(prog: Program, chk: Check) -> None:
                 f"of the correlation function in this branch", ei[label])
 
 
+def l6(prog: Program, chk: Check) -> None:
+    chk.rule("L6", "no value of a correlation function, eta kernel or cell integral is served "
+             "from a hand-written memo whose key leaves out an argument the value depends on "
+             "(real-time and Matsubara values, or different tolerances, must not share slots); "
+             "functools caches key by all arguments and are accepted", floor=1)
+    from rules.c20 import _a7_unit
+    n = 0
+    for u in prog.units_in(BC):
+        if isinstance(u.node, ast.Lambda):
+            continue
+        n += 1
+        for (st, attr, key_expr, covered, missing) in _a7_unit(u):
+            chk.saw(u)
+            chk.add("L6", u, f"memo {attr}[{norm(key_expr)}] <- {norm(st.value)[:50]}", not missing,
+                    f"entry keyed / validated by {covered}" if not missing else
+                    f"the stored value depends on {missing}, which is not part of the key: "
+                    f"a later call with a different {missing[0]} is served the old value", st)
+    chk.add("L6", prog.module(BC), f"{n} functions of bath_correlations scanned for memo idioms",
+            n >= 20, "" if n >= 20 else "the module shrank below what was confirmed by hand")
+
+
 def run(prog: Program, chk: Check) -> None:
     chk.explanation = (
         "Decides, by a sibling cross-check, that CustomSD's closed-form cell integrals are the "
@@ -662,3 +766,4 @@ def run(prog: Program, chk: Check) -> None:
     l3(prog, chk)
     l4(prog, chk)
     l5(prog, chk)
+    l6(prog, chk)
